@@ -236,6 +236,17 @@ static void run_awgn(Json& js, vh::Rng& rng, long budget, int maxlen) {
             for (int i = 0; i < n; ++i) {
                 x[i] = (fade ? (0.02 + 2.0 * i / n) : 1.0) * amp * (kind == 1 ? rng.gauss() : std::sin(0.37 * i + 0.2)) + ped;
             }
+            // every third record: the same buffer held another signal of the same length, 30 dB up, in the call before
+            if (t % 3 == 0) {
+                const arr_real keep = x;
+                for (int i = 0; i < n; ++i) {
+                    x[i] = 31.6 * keep[i] + amp;
+                }
+                (void)awgn(x, snr);
+                for (int i = 0; i < n; ++i) {
+                    x[i] = keep[i];
+                }
+            }
             const arr_real y = awgn(x, snr);
             for (int i = 0; i < n; ++i) {
                 ps += (LD)x[i] * x[i];
@@ -249,6 +260,16 @@ static void run_awgn(Json& js, vh::Rng& rng, long budget, int maxlen) {
                                  : cmplx_t(amp * std::cos(0.37 * i), 0.25 * amp * std::sin(0.11 * i));   // unequal I / Q power
                 if (fade) {
                     x[i] = x[i] * (0.02 + 2.0 * i / n);
+                }
+            }
+            if (t % 3 == 0) {
+                const arr_cmplx keep = x;
+                for (int i = 0; i < n; ++i) {
+                    x[i] = keep[i] * 0.0316;
+                }
+                (void)awgn(x, snr);
+                for (int i = 0; i < n; ++i) {
+                    x[i] = keep[i];
                 }
             }
             const arr_cmplx y = awgn(x, snr);
@@ -273,6 +294,13 @@ static void run_awgn(Json& js, vh::Rng& rng, long budget, int maxlen) {
 static void run_meas(Json& js, vh::Rng& rng, long budget, int maxlen) {
     for (long t = 0; t < budget; ++t) {
         int n = rng.coin() ? (1 << (int)rng.range(11, (int)std::log2(maxlen))) : (int)rng.range(2048, maxlen);
+        // every fourth case: a record just longer than a power of two (the periodogram is zero padded to almost twice its
+        // length, lobes are twice as wide in bins) with weak harmonics only (-28 dBc and below: sinad above 25 dB)
+        const bool padded = (t % 4 == 3);
+        if (padded) {
+            const int k = (int)rng.range(11, (int)std::log2(maxlen) - 1);
+            n = (1 << k) + (1 << k) / (int)rng.range(10, 40);
+        }
         const int nfft = 1 << nextpow2(n);
         const int nh = (int)rng.range(1, 5);   // harmonics besides the fundamental
         // fundamental chosen so that every component is >= 100 bins (of the nfft/2-point one-sided spectrum) from the others, DC, Nyquist
@@ -295,7 +323,7 @@ static void run_meas(Json& js, vh::Rng& rng, long budget, int maxlen) {
         std::vector<double> hdb(nh), hph(nh);
         LD hpow = 0;
         for (int h = 0; h < nh; ++h) {
-            hdb[h] = -(10 + 30 * rng.unif());
+            hdb[h] = padded ? -(28 + 12 * rng.unif()) : -(10 + 30 * rng.unif());
             hph[h] = 6.28 * rng.unif();
             hpow += powl(10.0L, (LD)hdb[h] / 10);
         }
